@@ -128,3 +128,6 @@ mod norm_util;
 
 #[cfg(feature = "verif_hooks")]
 pub mod verif_hooks;
+
+#[cfg(feature = "verif_hooks")]
+pub mod verif_hooks_passes;
